@@ -370,13 +370,16 @@ def run_check(P, tier, seed, replay=None):
     driver_errors = [i for i, o in enumerate(outs) if isinstance(o, dict) and 'driver_error' in o]
     disagree, specfail = [], []
     eval_ok = False
+    extra_counts = {}
     if driver_errors:
         broken.append({'kind': 'driver', 'detail': outs[driver_errors[0]]['driver_error'], 'count': len(driver_errors)})
     if ok_model and not driver_errors:
         terms = [P.to_coq(c, o) for c, o in zip(cases, outs)]
+        extra_fns = tuple(getattr(P, 'EXTRA_FNS', ()))       # informational boolean functions of a case (reported, not judged)
         eval_ok, fails, elog = coq_eval_cases(pid, P.RUN_MODULE, getattr(P, 'COQ_HEADER', ''), terms,
-                                              shard_size=getattr(P, 'SHARD', 300))
-        fails = {'agree': fails['agree'], 'spec_ok': fails['spec_ok']}
+                                              shard_size=getattr(P, 'SHARD', 300), fns=('agree', 'spec_ok') + extra_fns)
+        extra_counts = {fn: len(fails.get(fn, [])) for fn in extra_fns}
+        fails = {'agree': fails.get('agree', []), 'spec_ok': fails.get('spec_ok', [])}
         if not eval_ok:
             broken.append({'kind': 'model-eval', 'detail': elog[-1500:]})
         disagree, specfail = fails['agree'], fails['spec_ok']
@@ -449,6 +452,7 @@ def run_check(P, tier, seed, replay=None):
             'disagreements_model_vs_impl': len(disagree), 'spec_failures_on_impl': len(specfail),
             'known_findings_replayed': {k: len(v) for k, v in known_hits.items()},
             'model_evaluated_in_coq': bool(eval_ok),
+            'extra_functions_false_on': extra_counts,
             'exhaustive': bool(getattr(P, 'EXHAUSTIVE', False)),
             'files_in_closure': files,
         },
